@@ -121,7 +121,7 @@ func (r rect) draw(dst backend.Canvas, attrs *attributes, _ *SVGImage, dims draw
 	x, y := dims.point(attrs.x, attrs.y)
 	rx, ry := r.radii(dims)
 
-	if rx == 0 || ry == 0 { // no border radius
+	if rx <= 0 || ry <= 0 { // no border radius (a negative radius is invalid)
 		dst.Rectangle(x, y, width, height)
 		return nil
 	}
@@ -269,7 +269,7 @@ func newEllipse(node *cascadedNode, _ *svgContext) (drawable, error) {
 
 func (e ellipse) draw(dst backend.Canvas, _ *attributes, _ *SVGImage, dims drawingDims) []vertex {
 	rx, ry := e.radii(dims)
-	if rx == 0 || ry == 0 {
+	if rx <= 0 || ry <= 0 { // a negative radius is invalid
 		return nil
 	}
 	ratioX := rx / math.SqrtPi
